@@ -9,6 +9,53 @@ _fresh = itertools.count(1)
 FINITE = {'K': None}     # finite-scope mode: K = bound on lengths / universe sizes
 
 
+def q_index(n, body, kind='all', name='qi'):
+    """forall / exists i in [0,n): body(i)  -- expanded over 0..K-1 in finite-scope mode (n <= K there)"""
+    K = FINITE['K']
+    if K is not None:
+        parts = []
+        for c in range(K):
+            ci = z3.IntVal(c)
+            b = body(ci)
+            parts.append(z3.Implies(ci < n, b) if kind == 'all' else z3.And(ci < n, b))
+        return z3.And(parts) if kind == 'all' else z3.Or(parts)
+    i = fresh_const(name, z3.IntSort())
+    if kind == 'all':
+        return z3.ForAll([i], z3.Implies(z3.And(0 <= i, i < n), body(i)))
+    return z3.Exists([i], z3.And(0 <= i, i < n, body(i)))
+
+
+def q_sort(t, body, kind='all', name='qk'):
+    """forall / exists x of type t: body(x)  -- expanded over the finite universe when t is an
+    uninterpreted sort (or a tuple/opt of those) in finite-scope mode"""
+    K = FINITE['K']
+    if K is not None:
+        uni = finite_universe_of(t)
+        if uni is not None:
+            parts = [body(c) for c in uni]
+            return z3.And(parts) if kind == 'all' else z3.Or(parts)
+    x = fresh_const(name, sort_of(t))
+    return z3.ForAll([x], body(x)) if kind == 'all' else z3.Exists([x], body(x))
+
+
+def finite_universe_of(t):
+    if t.kind == 'sort':
+        return finite_universe(t)
+    if t.kind == 'bool':
+        return [z3.BoolVal(False), z3.BoolVal(True)]
+    if t.kind == 'tuple':
+        subs = [finite_universe_of(a) for a in t.args]
+        if any(u is None for u in subs):
+            return None
+        import itertools as _it
+        S = sort_of(t)
+        combos = list(_it.product(*subs))
+        if len(combos) > 64:
+            return None
+        return [S.mk(*c) for c in combos]
+    return None
+
+
 class OutOfSubset(Exception):
     """the code uses something the front end does not model: function is not proved"""
 
@@ -27,10 +74,11 @@ def fresh_const(base, sort):
 
 class Ob:
     """a proof obligation: pc => goal"""
-    __slots__ = ('name', 'pc', 'goal', 'kind', 'path', 'where', 'fn', 'assumes')
+    __slots__ = ('name', 'pc', 'goal', 'kind', 'path', 'where', 'fn', 'assumes', 'env', 'store')
 
-    def __init__(self, name, pc, goal, kind, path, where, fn):
+    def __init__(self, name, pc, goal, kind, path, where, fn, env=None, store=None):
         self.name, self.pc, self.goal, self.kind, self.path, self.where, self.fn = name, list(pc), goal, kind, path, where, fn
+        self.env, self.store = env, store
 
 
 class State:
@@ -133,24 +181,15 @@ def new_list(st, t, arr=None, n=None, name='l', parent=None):
     return Ref(st.alloc(ListC(t, arr, n, parent)), t)
 
 
-def _keys_axioms(st, ks, dom, keys, pos, n):
+def _keys_axioms(st, kt, dom, keys, pos, n):
     """keys[0..n) enumerates dom without repetition (A5: iteration order is some fixed order)"""
     st.assume(n >= 0)
     if FINITE['K'] is not None:
         st.assume(n <= FINITE['K'])
-    i = fresh_const('ki', z3.IntSort())
-    k = fresh_const('kk', ks)
-    if FINITE['K'] is not None:
-        for c in range(FINITE['K']):
-            ci = z3.IntVal(c)
-            st.assume(z3.Implies(ci < n, z3.And(z3.Select(dom, z3.Select(keys, ci)), z3.Select(pos, z3.Select(keys, ci)) == ci)))
-    else:
-        st.assume(z3.ForAll([i], z3.Implies(z3.And(0 <= i, i < n),
-                                            z3.And(z3.Select(dom, z3.Select(keys, i)), z3.Select(pos, z3.Select(keys, i)) == i)),
-                            patterns=[z3.Select(keys, i)]))
-    st.assume(z3.ForAll([k], z3.Implies(z3.Select(dom, k),
-                                        z3.And(0 <= z3.Select(pos, k), z3.Select(pos, k) < n, z3.Select(keys, z3.Select(pos, k)) == k)),
-                        patterns=[z3.Select(pos, k)]))
+    st.assume(q_index(n, lambda i: z3.And(z3.Select(dom, z3.Select(keys, i)), z3.Select(pos, z3.Select(keys, i)) == i), name='ki'))
+    st.assume(q_sort(kt, lambda k: z3.Implies(z3.Select(dom, k),
+                                              z3.And(0 <= z3.Select(pos, k), z3.Select(pos, k) < n,
+                                                     z3.Select(keys, z3.Select(pos, k)) == k)), name='kk'))
 
 
 def new_dict(st, t, name='d', empty=False, parent=None, parts=None):
@@ -169,7 +208,7 @@ def new_dict(st, t, name='d', empty=False, parent=None, parts=None):
         keys = fresh_const(name + '_keys', z3.ArraySort(z3.IntSort(), ks))
         pos = fresh_const(name + '_pos', z3.ArraySort(ks, z3.IntSort()))
         n = fresh_const(name + '_n', z3.IntSort())
-        _keys_axioms(st, ks, dom, keys, pos, n)
+        _keys_axioms(st, t.args[0], dom, keys, pos, n)
     return Ref(st.alloc(DictC(t, dom, val, keys, pos, n, parent)), t)
 
 
@@ -187,7 +226,7 @@ def new_set(st, t, name='s', empty=False, parent=None, parts=None):
         keys = fresh_const(name + '_keys', z3.ArraySort(z3.IntSort(), es))
         pos = fresh_const(name + '_pos', z3.ArraySort(es, z3.IntSort()))
         n = fresh_const(name + '_n', z3.IntSort())
-        _keys_axioms(st, es, dom, keys, pos, n)
+        _keys_axioms(st, t.args[0], dom, keys, pos, n)
     return Ref(st.alloc(SetC(t, dom, keys, pos, n, parent)), t)
 
 
@@ -242,7 +281,7 @@ def pack(st, v, t):
                 return v.e
         raise TypeError('cannot pack %r as %r' % (v, t))
     if isinstance(v, TupV):
-        if k != 'tuple' or len(t.args) != len(v.items):
+        if k != 'tuple' or len(t.args) != len(v.items) or (t.name or None) != (v.cls or None):
             raise TypeError('cannot pack tuple %r as %r' % (v, t))
         S = sort_of(t)
         return S.mk(*[pack(st, x, a) for x, a in zip(v.items, t.args)])
@@ -281,7 +320,7 @@ def unpack(st, e, t, parent=None):
         return SV(t, e)
     if k == 'tuple':
         S = sort_of(t)
-        return TupV([unpack(st, z3.simplify(S.accessor(0, i)(e)) if False else S.accessor(0, i)(e), a) for i, a in enumerate(t.args)])
+        return TupV([unpack(st, S.accessor(0, i)(e), a) for i, a in enumerate(t.args)], t.name)
     if k == 'opt':
         S = sort_of(t)
         isn = z3.simplify(S.is_none(e))
@@ -347,7 +386,7 @@ def fresh_value(st, t, name):
     if k == 'set':
         return new_set(st, t, name=name)
     if k == 'tuple':
-        return TupV([fresh_value(st, a, '%s_%d' % (name, i)) for i, a in enumerate(t.args)])
+        return TupV([fresh_value(st, a, '%s_%d' % (name, i)) for i, a in enumerate(t.args)], t.name)
     if k == 'opt':
         isn = fresh_const(name + '_isnone', z3.BoolSort())
         return OptV(isn, fresh_value(st, t.args[0], name), t)
